@@ -102,7 +102,7 @@ pub fn run(world: &World, ctx: &mut Ctx) -> Option<Value> {
         return Some(v);
     }
     let pairs = super::pairs(world, &[]);
-    let total = ctx.tier.pick(200_000u64, 4_000_000u64);
+    let total = ctx.tier.pick(400_000u64, 6_000_000u64);
     let n = super::per_pair(total, pairs.len(), 40, 20_000);
     ctx.ev.extra.insert("grammar_rule_pairs".into(), json!(pairs.len()));
     ctx.ev.extra.insert("cases_per_pair".into(), json!(n));
